@@ -172,12 +172,14 @@ InitB ==
   /\ bs = <<<<>>>> /\ bi = <<<<>>>> /\ i = 0          \* L556-557: [[]], [[]]
   /\ pc = "batches"
 
-(* L558-564 *)
+(* L558-564: `if not batch_sizes[-1] or sum(batch_sizes[-1]) + l < batch_size`: *)
+(* an empty current batch always takes the trajectory (fix 9dc9cc3; before it   *)
+(* the leading batch stayed empty whenever lengths[0] >= batch_size)            *)
 BStep ==
   /\ pc = "batches" /\ i < T
   /\ LET l == lengths[i + 1]
          last == Len(bs)
-     IN IF Sum(bs[last]) + l < bsize
+     IN IF bs[last] = <<>> \/ Sum(bs[last]) + l < bsize
           THEN /\ bs' = [bs EXCEPT ![last] = Append(@, l)]
                /\ bi' = [bi EXCEPT ![last] = Append(@, i)]
           ELSE /\ bs' = Append(bs, <<l>>)
@@ -261,17 +263,11 @@ BatchesCoverInOrder ==
 (* "combined length at most batch_size" (docstring), given the caller's guard *)
 BatchWithinSize ==
   pc = "bdone" => BatchWithinSizeOn(bi, lengths, bsize) /\ \A b \in 1..Len(bs) : Sum(bs[b]) <= bsize
-(* exactly when does an empty batch arise: only the leading one, and only when *)
-(* the first trajectory alone already reaches batch_size                       *)
-EmptyOnlyLeading ==
-  pc = "bdone" =>
-     /\ \A b \in 2..Len(bi) : bi[b] # <<>>
-     /\ (bi[1] = <<>>) <=> (lengths[1] >= bsize)
-(* every batch is handed to the loader, which needs at least one trajectory.   *)
-(* The transcribed loop violates this exactly on the inputs characterised by   *)
-(* EmptyOnlyLeading; the clause is judged on the real routine's output by      *)
-(* Trace_Partition.tla (clause NoEmptyBatch), input by input.                  *)
-NoEmptyBatch == pc = "bdone" => NoEmptyBatchOn(bi)
+(* every batch is handed to the loader, which needs at least one trajectory:   *)
+(* no batch is empty once the first trajectory has been placed.  The same       *)
+(* clause (NoEmptyBatchOn) is judged on the real routine's output by            *)
+(* Trace_Partition.tla, input by input.                                         *)
+NoEmptyBatch == (pc \in {"batches", "bdone"} /\ i >= 1) => NoEmptyBatchOn(bi)
 
 (* ---- emission ---------------------------------------------------------------------------------- *)
 EmitP == (Emit /\ pc = "start") =>
